@@ -133,6 +133,9 @@ def gen_plan(profile, seed, tier="quick"):
                 p = catalog.gen_params(fam, rng, knobs["simple_waves"])
         else:
             p = catalog.gen_params(fam, rng, knobs["simple_waves"])
+        # options a change under test may add to the constructor (no effect on
+        # the pinned tree, whose constructors have no unknown parameters)
+        p["fuzz"] = rng.randrange(1, 16) if rng.random() < 0.5 else 0
         cur_params[slot] = p
         slot_dtype[slot] = cur_default[0]
         return {"op": "construct", "id": new_id(), "slot": slot, "params": p}
@@ -231,7 +234,7 @@ def gen_plan(profile, seed, tier="quick"):
                 # the other precision, or (20 %) a reduced precision the pinned
                 # library rejects - judged like any other call if accepted
                 sb["arg"]["dtype"] = other_dtype(sb["arg"]["dtype"]) if rng.random() < 0.8 \
-                    else _pick(rng, ["bfloat16", "float16"])
+                    else _pick(rng, ["bfloat16", "float16", "bfloat16", "int64", "complex64"])
             elif how == "values":
                 sb["arg"]["seed"] = rng.randrange(1 << 30)
             elif how == "layout":
